@@ -467,7 +467,7 @@ def shard(cfg):
         rec.evaluations += len(ops) - 1
 
     n, v, herr = hyp_search(strategy(cfg["ops"]), body, seed=cfg["seed"] * 1000 + cfg["shard"],
-                            max_examples=cfg["examples"])
+                            max_examples=cfg["examples"], case_cpu_s=30.0)
     res = rec.result()
     if v is not None:
         inside, ops = v.case
